@@ -307,6 +307,10 @@ func (p *pathState) assert(c *Term, kind, msg, pos string) {
 	p.res.Violations = append(p.res.Violations, v)
 	// continue on the side where the assertion holds, if any
 	if c.isConst || p.sat(c, false) == rUnsat {
+		if len(p.known) > 0 {
+			// a known finding that fails on the whole path: keep exploring what follows
+			return
+		}
 		panic(pathAbort{"assertion fails on the whole path"})
 	}
 	p.addPC(c)
